@@ -87,8 +87,10 @@ func (e EQuant) String() string {
 	}
 	return "(" + q + " " + strings.Join(vs, ", ") + " :: " + e.Body.String() + ")"
 }
-func (e EOld) String() string  { return "old(" + e.X.String() + ")" }
-func (e ECond) String() string { return "(" + e.C.String() + " ? " + e.A.String() + " : " + e.B.String() + ")" }
+func (e EOld) String() string { return "old(" + e.X.String() + ")" }
+func (e ECond) String() string {
+	return "(" + e.C.String() + " ? " + e.A.String() + " : " + e.B.String() + ")"
+}
 
 // ---------------------------------------------------------------- lexer
 
@@ -469,14 +471,14 @@ func (p *sparser) parsePrimary() Expr {
 // ---------------------------------------------------------------- contract structures
 
 type Clause struct {
-	Label string // e.g. post.1, pre.2
-	Src   string
-	E     Expr
+	Label    string // e.g. post.1, pre.2
+	Src      string
+	E        Expr
 	Triggers []Expr // optional instantiation pattern for a quantified axiom
 }
 
 type LoopSpec struct {
-	Label string // goto-style loop: label of the loop head
+	Label      string // goto-style loop: label of the loop head
 	Ordinal    int
 	Invariants []Clause
 	Decreases  *Clause
@@ -495,56 +497,56 @@ type GhostSet struct {
 
 // CallRule: protocol obligation / ghost update at call sites (or field stores) inside a function.
 type CallRule struct {
-	Label    string
-	Pattern  string // callee pattern; for stores: "store T.f"
-	IsStore  bool
-	On       string // optional canonical receiver/first-arg path filter
-	With     string // optional: some argument's source text must equal this
-	Requires []Clause
-	Sets     []GhostSet
-	Assume   []Clause // assumed facts about the call's results (listed as assumptions)
-	FrameNothing bool // the (dynamic/uncontracted) callee is assumed to write no caller-visible location
-	Matched  int
+	Label        string
+	Pattern      string // callee pattern; for stores: "store T.f"
+	IsStore      bool
+	On           string // optional canonical receiver/first-arg path filter
+	With         string // optional: some argument's source text must equal this
+	Requires     []Clause
+	Sets         []GhostSet
+	Assume       []Clause // assumed facts about the call's results (listed as assumptions)
+	FrameNothing bool     // the (dynamic/uncontracted) callee is assumed to write no caller-visible location
+	Matched      int
 }
 
 type AssignTarget struct {
-	Src  string
-	All  bool   // everything
-	Expr Expr   // p.f | s[*] (EIndex with I==EIdent{"*"}) | ...
-	Map  string // "T::f" whole field map
-	Elems bool  // "elements": all element/cell maps
+	Src   string
+	All   bool   // everything
+	Expr  Expr   // p.f | s[*] (EIndex with I==EIdent{"*"}) | ...
+	Map   string // "T::f" whole field map
+	Elems bool   // "elements": all element/cell maps
 }
 
 type FuncSpec struct {
-	Name     string // as written: "Mark.And", "(*ShardGroupInfo).Contains", "NewMark", "authenticate$1"
-	Pkg      string // import path of package owning the contract file
-	File     string
-	Line     int
-	Props    []string
-	Mode     string // "int" | "bv"
-	Requires []Clause
-	Ensures  []Clause
-	TrustedEnsures []Clause // assumed at call sites, not checked against the body
-	Loops    map[int]*LoopSpec
-	Ghosts   []GhostVar
-	Calls    []*CallRule
-	Assigns  []AssignTarget
-	HasAssigns bool
-	TrustedFrame bool // assigns clause assumed at call sites, not checked against the body
-	Trusted  bool   // contract assumed, body not verified
-	Extern   bool   // function outside /repo; contract assumed
-	NoPanic  bool
-	NoOverflow bool
-	AbstractMod bool // remainders with a symbolic divisor are uninterpreted (with range facts)
-	Stable      []string // struct fields (pkg.Type.field) assumed not to be written by any callee of this function
+	Name             string // as written: "Mark.And", "(*ShardGroupInfo).Contains", "NewMark", "authenticate$1"
+	Pkg              string // import path of package owning the contract file
+	File             string
+	Line             int
+	Props            []string
+	Mode             string // "int" | "bv"
+	Requires         []Clause
+	Ensures          []Clause
+	TrustedEnsures   []Clause // assumed at call sites, not checked against the body
+	Loops            map[int]*LoopSpec
+	Ghosts           []GhostVar
+	Calls            []*CallRule
+	Assigns          []AssignTarget
+	HasAssigns       bool
+	TrustedFrame     bool // assigns clause assumed at call sites, not checked against the body
+	Trusted          bool // contract assumed, body not verified
+	Extern           bool // function outside /repo; contract assumed
+	NoPanic          bool
+	NoOverflow       bool
+	AbstractMod      bool     // remainders with a symbolic divisor are uninterpreted (with range facts)
+	Stable           []string // struct fields (pkg.Type.field) assumed not to be written by any callee of this function
 	OnErrorUnchanged []Expr
-	Carries  []*CarrySpec
-	FieldCover []*FieldCoverSpec
-	Pure     bool
-	Unfold   int // loop unrolling for constant loops (0 = none)
-	Opaque   []string // callees to treat as havoc even if contracted
-	Bounded  string
-	Notes    []string
+	Carries          []*CarrySpec
+	FieldCover       []*FieldCoverSpec
+	Pure             bool
+	Unfold           int      // loop unrolling for constant loops (0 = none)
+	Opaque           []string // callees to treat as havoc even if contracted
+	Bounded          string
+	Notes            []string
 }
 
 // CarrySpec: structural completeness (class D): every field of the source struct is carried to dst.
@@ -558,9 +560,9 @@ type CarrySpec struct {
 // FieldCoverSpec: syntactic structural completeness: every field of a struct is read from a parameter
 // (encoders) or written in values of a type (decoders), except those listed with a reason.
 type FieldCoverSpec struct {
-	Writes bool
-	Target string // parameter name (reads) or type name (writes)
-	Except map[string]string
+	Writes   bool
+	Target   string // parameter name (reads) or type name (writes)
+	Except   map[string]string
 	AllPaths bool // writes_all_paths: the field is stored on EVERY path to a return
 }
 
